@@ -7,7 +7,7 @@ from extract_lib import Tr, Unsupported, emit, find_func, lean_chars, lean_str, 
 
 
 # ----------------------------------------------------------------------------- _datetime.py
-def generate():
+def _generate_tables():
     errors = []
     body = "import LoguruModel.Datetime.Base\nset_option linter.unusedVariables false\nnamespace Datetime.Gen\n\n"
     try:
@@ -142,3 +142,558 @@ def generate():
     return emit("Datetime", body, ["loguru/_datetime.py"], errors)
 
 
+
+
+# ============================================================================= round 5: Generated/DatetimeShape.lean
+# Statement-level shapes of _datetime.py the round-5 theorems depend on:
+#   * `_format_timezone` regenerated as a Lean function (symbolic execution of the straight-line body, locals inlined,
+#     every conditional lifted into one ordered decision tree, so that renamed locals, split tuple assignments and
+#     if/else <-> conditional expressions give the same term);
+#   * `_timestamp_microseconds`: epoch literal and unit of the floor division;
+#   * the memoiser of `_compile_format` (key = the whole spec?  maxsize) and the shape of `datetime.__format__`;
+#   * `_loguru_datetime_formatter`: conversion to UTC happens BEFORE the fields are read, arguments in formatter order;
+#   * absence of any other cross-call state in the functions reachable from `__format__`.
+US_PER_S = 10 ** 6
+
+
+class _Sym:
+    """symbolic execution of a small straight-line function into an expression IR (tuples)"""
+
+    def __init__(self, params):
+        self.env = {}
+        self.params = set(params)
+        self.ret = None
+
+    # -- expressions
+    def ev(self, n):
+        if isinstance(n, ast.Constant):
+            if isinstance(n.value, bool) or not isinstance(n.value, (int, str)):
+                raise Unsupported("constant %r" % (n.value,))
+            return ("const", n.value) if isinstance(n.value, int) else ("str", n.value)
+        if isinstance(n, ast.Name):
+            if n.id in self.env:
+                return self.env[n.id]
+            return ("name", n.id)
+        if isinstance(n, ast.Attribute):
+            return ("attr", self.ev(n.value), n.attr)
+        if isinstance(n, ast.Tuple):
+            return ("tuple", tuple(self.ev(e) for e in n.elts))
+        if isinstance(n, ast.BoolOp):
+            return ("boolop", type(n.op).__name__, tuple(self.ev(v) for v in n.values))
+        if isinstance(n, ast.UnaryOp) and isinstance(n.op, ast.Not):
+            return ("not", self.ev(n.operand))
+        if isinstance(n, ast.IfExp):
+            return ("ite", self.ev(n.test), self.ev(n.body), self.ev(n.orelse))
+        if isinstance(n, ast.Compare) and len(n.ops) == 1:
+            return ("cmp", type(n.ops[0]).__name__, self.ev(n.left), self.ev(n.comparators[0]))
+        if isinstance(n, ast.BinOp):
+            a, b = self.ev(n.left), self.ev(n.right)
+            op = type(n.op).__name__
+            if op == "Mod" and self.is_str(a):
+                return ("fmt", a, b if b[0] == "tuple" else ("tuple", (b,)))
+            if op == "Add" and (self.is_str(a) or self.is_str(b)):
+                return ("cat", a, b)
+            if op in ("FloorDiv", "Mod"):
+                if b[0] != "const" or b[1] <= 0:
+                    raise Unsupported("divisor of %s is not a positive literal" % op)
+                return ("floordiv" if op == "FloorDiv" else "mod", a, b[1])
+            raise Unsupported("binary operator " + op)
+        if isinstance(n, ast.Call):
+            f = n.func
+            if isinstance(f, ast.Name) and f.id == "abs" and len(n.args) == 1 and not n.keywords:
+                return ("abs", self.ev(n.args[0]))
+            if isinstance(f, ast.Name) and f.id == "divmod" and len(n.args) == 2 and not n.keywords:
+                a, b = self.ev(n.args[0]), self.ev(n.args[1])
+                if b[0] != "const" or b[1] <= 0:
+                    raise Unsupported("divmod by a non-literal")
+                return ("tuple", (("floordiv", a, b[1]), ("mod", a, b[1])))
+            if isinstance(f, ast.Attribute) and f.attr == "is_integer" and not n.args and not n.keywords:
+                return ("isint", self.ev(f.value))
+            return ("call", self.ev(f), tuple(self.ev(a) for a in n.args),
+                    tuple((k.arg, self.ev(k.value)) for k in n.keywords))
+        raise Unsupported("expression " + ast.dump(n)[:60])
+
+    def is_str(self, v):
+        return v[0] in ("str", "fmt", "cat") or (v[0] == "ite" and self.is_str(v[2]) and self.is_str(v[3]))
+
+    # -- statements
+    def assign(self, target, val):
+        if isinstance(target, ast.Name):
+            self.env[target.id] = val
+        elif isinstance(target, (ast.Tuple, ast.List)):
+            if val[0] != "tuple" or len(val[1]) != len(target.elts):
+                raise Unsupported("tuple assignment from a non-tuple")
+            for t, v in zip(target.elts, val[1]):
+                self.assign(t, v)
+        else:
+            raise Unsupported("assignment target " + ast.dump(target)[:40])
+
+    def run(self, stmts):
+        for st in stmts:
+            if self.ret is not None:
+                raise Unsupported("statements after return")
+            if isinstance(st, ast.Expr) and isinstance(st.value, ast.Constant) and isinstance(st.value.value, str):
+                continue                                                   # docstring
+            if isinstance(st, ast.Assign) and len(st.targets) == 1:
+                self.assign(st.targets[0], self.ev(st.value))
+            elif isinstance(st, ast.AugAssign) and isinstance(st.op, ast.Add) and isinstance(st.target, ast.Name):
+                self.env[st.target.id] = ("cat", self.ev(st.target), self.ev(st.value))
+            elif isinstance(st, ast.Return) and st.value is not None:
+                self.ret = self.ev(st.value)
+            elif isinstance(st, ast.If):
+                c = self.ev(st.test)
+                a, b = _Sym(self.params), _Sym(self.params)
+                a.env, b.env = dict(self.env), dict(self.env)
+                a.run(st.body)
+                b.run(st.orelse)
+                if (a.ret is None) != (b.ret is None):
+                    # `if c: return x` followed by more statements: continue the other branch to its own return
+                    raise Unsupported("return in one branch only")
+                for k in set(a.env) | set(b.env):
+                    va, vb = a.env.get(k), b.env.get(k)
+                    if va is None or vb is None:
+                        continue                                          # defined on one path only: not usable after
+                    self.env[k] = va if va == vb else ("ite", c, va, vb)
+                if a.ret is not None:
+                    self.ret = a.ret if a.ret == b.ret else ("ite", c, a.ret, b.ret)
+            else:
+                raise Unsupported("statement " + type(st).__name__)
+        return self.ret
+
+
+_OFFSET_TZ = ("boolop", "Or", (("attr", ("name", "dt"), "tzinfo"), ("attr", ("name", "timezone"), "utc")))
+_OFFSET = ("call", ("attr", ("call", ("attr", _OFFSET_TZ, "utcoffset"), (("name", "dt"),), ()), "total_seconds"), (), ())
+
+
+class _TzLean:
+    """IR -> Lean over the offset as exact integer MICROSECONDS (the code computes in float seconds; unit "sec" = a
+    quantity of seconds held as microseconds, unit "int" = a plain number)."""
+
+    def num(self, v):
+        if v == _OFFSET:
+            return ("off", "sec")
+        k = v[0]
+        if k == "const":
+            return ("(%d : Int)" % v[1], "int")
+        if k == "abs":
+            a, u = self.num(v[1])
+            return ("((%s).natAbs : Int)" % a, u)
+        if k in ("floordiv", "mod"):
+            a, u = self.num(v[1])
+            n = v[2] * US_PER_S if u == "sec" else v[2]
+            if k == "floordiv":
+                return ("(%s / (%d : Int))" % (a, n), "int")
+            return ("(%s %% (%d : Int))" % (a, n), u)
+        raise Unsupported("numeric expression %r" % (v,))
+
+    def nonneg_sec(self, v):
+        """quantities for which `%d` (truncation) and floor coincide and `%09.06f` is transcribed: x % n"""
+        return v[0] == "mod"
+
+    def cond(self, v):
+        """-> (lean Prop, negated?)"""
+        k = v[0]
+        if k == "not":
+            p, neg = self.cond(v[1])
+            return p, not neg
+        if k == "isint":
+            a, u = self.num(v[1])
+            if u != "sec":
+                raise Unsupported("is_integer() of a plain number")
+            return ("%s %% (1000000 : Int) = 0" % a, False)
+        if k == "cmp":
+            a, ua = self.num(v[2])
+            b, ub = self.num(v[3])
+            if ua != ub:
+                if v[3][0] == "const" and ua == "sec":
+                    b = "(%d : Int)" % (v[3][1] * US_PER_S)
+                elif v[2][0] == "const" and ub == "sec":
+                    a = "(%d : Int)" % (v[2][1] * US_PER_S)
+                else:
+                    raise Unsupported("comparison of different units")
+            op = v[1]
+            table = {"GtE": ("%s ≥ %s", False), "Lt": ("%s ≥ %s", True), "Gt": ("%s > %s", False),
+                     "LtE": ("%s > %s", True), "Eq": ("%s = %s", False), "NotEq": ("%s = %s", True)}
+            if op not in table:
+                raise Unsupported("comparison " + op)
+            return (table[op][0] % (a, b), table[op][1])
+        raise Unsupported("condition %r" % (v,))
+
+    # a string value -> decision tree: ("leaf", [pieces]) | ("ite", prop, tree, tree); pieces are Lean List Char terms
+    def tree(self, v):
+        k = v[0]
+        if k == "str":
+            return ("leaf", [("lit", v[1])] if v[1] else [])
+        if k == "name" and v[1] == "sep":
+            return ("leaf", [("term", "sep")])
+        if k == "ite":
+            p, neg = self.cond(v[1])
+            a, b = self.tree(v[2]), self.tree(v[3])
+            return ("ite", p, b, a) if neg else ("ite", p, a, b)
+        if k == "cat":
+            return self.cat(self.tree(v[1]), self.tree(v[2]))
+        if k == "fmt":
+            return self.fmt_tree(v[1], v[2][1])
+        raise Unsupported("string expression %r" % (v,))
+
+    def cat(self, a, b):
+        if a[0] == "ite":
+            return ("ite", a[1], self.cat(a[2], b), self.cat(a[3], b))
+        if b[0] == "ite":
+            return ("ite", b[1], self.cat(a, b[2]), self.cat(a, b[3]))
+        return ("leaf", a[1] + b[1])
+
+    def fmt_tree(self, f, args):
+        if f[0] == "ite":
+            p, neg = self.cond(f[1])
+            a, b = self.fmt_tree(f[2], args), self.fmt_tree(f[3], args)
+            return ("ite", p, b, a) if neg else ("ite", p, a, b)
+        if f[0] != "str":
+            raise Unsupported("format string is not a literal")
+        convs = _re.findall(r"%(?:s|d|0\dd|09\.06f)|%.|[^%]+", f[1])
+        out = ("leaf", [])
+        i = 0
+        for c in convs:
+            if not c.startswith("%"):
+                out = self.cat(out, ("leaf", [("lit", c)]))
+                continue
+            if i >= len(args):
+                raise Unsupported("too few arguments for " + f[1])
+            a = args[i]
+            i += 1
+            if c == "%s":
+                out = self.cat(out, self.tree(a))
+            elif c == "%d" or _re.fullmatch(r"%0\dd", c):
+                t, u = self.num(a)
+                if u == "sec":
+                    if not self.nonneg_sec(a):
+                        raise Unsupported("%d of a possibly negative float")
+                    t = "(%s / (1000000 : Int))" % t
+                out = self.cat(out, ("leaf", [("term", "Py.fmtD %s" % t if c == "%d" else "Py.fmtD0 %s %s" % (c[2], t))]))
+            elif c == "%09.06f":
+                t, u = self.num(a)
+                if u != "sec" or not (a[0] == "mod" and a[2] == 60):
+                    raise Unsupported("%09.06f of something that is not seconds modulo 60")
+                out = self.cat(out, ("leaf", [("term", "Datetime.fmtSecondsFrac %s" % t)]))
+            else:
+                raise Unsupported("conversion " + c)
+        if i != len(args):
+            raise Unsupported("too many arguments for " + f[1])
+        return out
+
+    # ordered, reduced decision tree (canonical for the function of its atomic conditions)
+    def canon(self, t):
+        conds = sorted(self.conds(t))
+        return self.build(t, conds, {})
+
+    def conds(self, t):
+        return set() if t[0] == "leaf" else {t[1]} | self.conds(t[2]) | self.conds(t[3])
+
+    def restrict(self, t, val):
+        while t[0] == "ite" and t[1] in val:
+            t = t[2] if val[t[1]] else t[3]
+        if t[0] == "leaf":
+            return t
+        return ("ite", t[1], self.restrict(t[2], val), self.restrict(t[3], val))
+
+    def build(self, t, conds, val):
+        t = self.restrict(t, val)
+        if t[0] == "leaf":
+            return t
+        live = [c for c in conds if c in self.conds(t)]
+        c = live[0]
+        a = self.build(t, conds, dict(val, **{c: True}))
+        b = self.build(t, conds, dict(val, **{c: False}))
+        return a if a == b else ("ite", c, a, b)
+
+    def lean(self, t, ind="  "):
+        if t[0] == "leaf":
+            parts, lit = [], ""
+            for kind, x in t[1]:
+                if kind == "lit":
+                    lit += x
+                else:
+                    if lit:
+                        parts.append(lean_chars(lit))
+                        lit = ""
+                    parts.append(x if x == "sep" else "(%s)" % x)
+            if lit:
+                parts.append(lean_chars(lit))
+            return ind + (" ++ ".join(parts) if parts else "([] : List Char)")
+        return "%sif %s then\n%s\n%selse\n%s" % (ind, t[1], self.lean(t[2], ind + "  "), ind, self.lean(t[3], ind + "  "))
+
+
+def _tz_function(tree):
+    fn = find_func(tree, "_format_timezone")
+    a = fn.args
+    if [x.arg for x in a.args] != ["dt"] or [x.arg for x in a.kwonlyargs] != ["sep"] or a.vararg or a.kwarg \
+            or a.defaults or any(d is not None for d in a.kw_defaults):
+        raise Unsupported("_format_timezone signature")
+    sym = _Sym(["dt", "sep"])
+    ret = sym.run(fn.body)
+    if ret is None:
+        raise Unsupported("_format_timezone does not return")
+    tl = _TzLean()
+    t = tl.canon(tl.tree(ret))
+    out = "/-- `_format_timezone(dt, sep=sep)` regenerated from the source: the offset `off` in exact microseconds\n"
+    out += "(the code: float seconds), locals inlined, conditionals as one ordered decision tree -/\n"
+    out += "def formatTimezoneGen (off : Int) (sep : Py.Str) : Py.Str :=\n" + tl.lean(t) + "\n\n"
+    return out
+
+
+def _timestamp_shape(tree):
+    """`_timestamp_microseconds`: returns `(dt - E) // timedelta(U=k)` with E a literal aware datetime in UTC
+    (locals inlined).  -> (y, m, d, unit in microseconds)"""
+    fn = find_func(tree, "_timestamp_microseconds")
+    if [x.arg for x in fn.args.args] != ["dt"]:
+        raise Unsupported("_timestamp_microseconds signature")
+    env = {}
+    ret = None
+    for st in fn.body:
+        if isinstance(st, ast.Expr) and isinstance(st.value, ast.Constant):
+            continue
+        if isinstance(st, ast.If) and ast.unparse(st.test) == "dt.utcoffset() is None" \
+                and [ast.unparse(x) for x in st.body] == ["dt = dt.astimezone()"] and not st.orelse and ret is None:
+            continue                                     # naive datetimes are made aware first (outside the model)
+        if isinstance(st, ast.Assign) and len(st.targets) == 1 and isinstance(st.targets[0], ast.Name) and ret is None:
+            env[st.targets[0].id] = st.value
+            continue
+        if isinstance(st, ast.Return) and ret is None and st.value is not None:
+            ret = st.value
+            continue
+        raise Unsupported("_timestamp_microseconds statement: " + ast.unparse(st)[:60])
+
+    def inl(n):
+        seen = 0
+        while isinstance(n, ast.Name) and n.id in env and seen < 10:
+            n = env[n.id]
+            seen += 1
+        return n
+    ret = inl(ret)
+    if not (isinstance(ret, ast.BinOp) and isinstance(ret.op, ast.FloorDiv)):
+        raise Unsupported("_timestamp_microseconds does not return a floor division: " + ast.unparse(ret)[:60])
+    num, den = inl(ret.left), inl(ret.right)
+    if not (isinstance(num, ast.BinOp) and isinstance(num.op, ast.Sub) and ast.unparse(inl(num.left)) == "dt"):
+        raise Unsupported("numerator is not dt - epoch")
+    ep = inl(num.right)
+    if not (isinstance(ep, ast.Call) and ast.unparse(ep.func) in ("datetime_", "datetime") and len(ep.args) == 3
+            and all(isinstance(x, ast.Constant) and isinstance(x.value, int) for x in ep.args)
+            and [(k.arg, ast.unparse(k.value)) for k in ep.keywords] == [("tzinfo", "timezone.utc")]):
+        raise Unsupported("epoch literal: " + ast.unparse(ep)[:60])
+    units = {"microseconds": 1, "milliseconds": 1000, "seconds": US_PER_S}
+    if not (isinstance(den, ast.Call) and ast.unparse(den.func) == "timedelta" and not den.args and len(den.keywords) == 1
+            and den.keywords[0].arg in units and isinstance(den.keywords[0].value, ast.Constant)
+            and isinstance(den.keywords[0].value.value, int) and den.keywords[0].value.value > 0):
+        raise Unsupported("unit of the division: " + ast.unparse(den)[:60])
+    unit = units[den.keywords[0].arg] * den.keywords[0].value.value
+    return tuple(x.value for x in ep.args) + (unit,)
+
+
+_MUTATORS = {"append", "extend", "insert", "add", "update", "setdefault", "pop", "popitem", "clear", "remove",
+             "discard", "appendleft", "__setitem__", "__delitem__", "move_to_end", "sort", "reverse"}
+
+
+def _state_writes(tree):
+    """every construct in the functions reachable from `datetime.__format__` through which one call could leave
+    something behind for the next: global/nonlocal, stores into attributes or items of anything, mutating method calls
+    on names that are not locals created in the same function, mutable default arguments, decorators other than the
+    memoiser of `_compile_format`.  (Locals built and filled inside one call - `formatters.append` - are not state.)"""
+    funcs = {n.name: n for n in tree.body if isinstance(n, (ast.FunctionDef, ast.AsyncFunctionDef))}
+    cls = find_class(tree, "datetime")
+    entry = [n for n in cls.body if isinstance(n, ast.FunctionDef) and n.name == "__format__"]
+    if len(entry) != 1:
+        raise Unsupported("datetime.__format__ not found")
+    todo, seen, order = [entry[0]], set(), []
+    while todo:
+        fn = todo.pop()
+        if id(fn) in seen:
+            continue
+        seen.add(id(fn))
+        order.append(fn)
+        for n in ast.walk(fn):
+            if isinstance(n, ast.Name) and n.id in funcs:
+                todo.append(funcs[n.id])
+    writes = []
+    for fn in order:
+        locals_ = set()
+        for n in ast.walk(fn):
+            if isinstance(n, ast.Name) and isinstance(n.ctx, ast.Store):
+                locals_.add(n.id)
+        params = {a.arg for a in fn.args.args + fn.args.kwonlyargs + fn.args.posonlyargs}
+        created = set()                     # locals bound to a fresh container/str in this function
+        for n in ast.walk(fn):
+            if isinstance(n, ast.Assign) and isinstance(n.value, (ast.List, ast.Dict, ast.Set, ast.Constant, ast.ListComp,
+                                                                    ast.DictComp, ast.SetComp, ast.Tuple, ast.JoinedStr)):
+                for t in n.targets:
+                    if isinstance(t, ast.Name):
+                        created.add(t.id)
+        for n in ast.walk(fn):
+            where = fn.name
+            if isinstance(n, (ast.Global, ast.Nonlocal)):
+                writes.append("%s: %s %s" % (where, type(n).__name__.lower(), ",".join(n.names)))
+            elif isinstance(n, (ast.Attribute, ast.Subscript)) and isinstance(n.ctx, (ast.Store, ast.Del)):
+                base = n.value
+                while isinstance(base, (ast.Attribute, ast.Subscript)):
+                    base = base.value
+                if not (isinstance(base, ast.Name) and base.id in created and base.id not in params):
+                    writes.append("%s: store into %s" % (where, ast.unparse(n)))
+            elif isinstance(n, ast.Call) and isinstance(n.func, ast.Attribute) and n.func.attr in _MUTATORS:
+                base = n.func.value
+                if not (isinstance(base, ast.Name) and base.id in created and base.id not in params):
+                    writes.append("%s: %s" % (where, ast.unparse(n.func)))
+            elif isinstance(n, (ast.FunctionDef, ast.AsyncFunctionDef, ast.Lambda)):
+                a = n.args
+                for d in list(a.defaults) + [d for d in a.kw_defaults if d is not None]:
+                    if not isinstance(d, ast.Constant):
+                        writes.append("%s: non-constant default argument %s" % (where, ast.unparse(d)))
+        decos = [ast.unparse(d) for d in getattr(fn, "decorator_list", [])]
+        if fn.name != "_compile_format" and decos:
+            writes.append("%s: decorator %s" % (fn.name, ",".join(decos)))
+    return sorted(set(writes)), [f.name for f in order]
+
+
+def _memoiser(tree):
+    """-> (key_is_whole_spec, maxsize or None).  The key of functools.lru_cache/cache is the full argument tuple, so
+    the key is the whole spec iff the function takes exactly that one parameter, `__format__` passes its `fmt`
+    argument through unchanged, and the decorator (if any) is one of functools' memoisers."""
+    fn = find_func(tree, "_compile_format")
+    a = fn.args
+    one_param = len(a.args) == 1 and not (a.posonlyargs or a.kwonlyargs or a.vararg or a.kwarg or a.defaults)
+    maxsize = None
+    ok = one_param
+    if len(fn.decorator_list) > 1:
+        ok = False
+    for d in fn.decorator_list:
+        src = ast.unparse(d)
+        if src in ("lru_cache", "functools.lru_cache"):
+            maxsize = 128
+        elif src in ("cache", "functools.cache"):
+            maxsize = None
+        elif isinstance(d, ast.Call) and ast.unparse(d.func) in ("lru_cache", "functools.lru_cache"):
+            kw = {k.arg: k.value for k in d.keywords}
+            pos = list(d.args)
+            if set(kw) - {"maxsize", "typed"} or len(pos) > 2:
+                ok = False
+            ms = kw.get("maxsize", pos[0] if pos else None)
+            if ms is None:
+                maxsize = 128
+            elif isinstance(ms, ast.Constant) and (ms.value is None or (isinstance(ms.value, int) and not isinstance(ms.value, bool))):
+                maxsize = ms.value
+            else:
+                ok = False
+        else:
+            ok = False                                    # a hand-written memoiser: its key is not known
+    # datetime.__format__(self, fmt): return _compile_format(fmt)(self)
+    cls = find_class(tree, "datetime")
+    ff = [n for n in cls.body if isinstance(n, ast.FunctionDef) and n.name == "__format__"]
+    if len(ff) != 1 or len(ff[0].args.args) != 2:
+        raise Unsupported("datetime.__format__ signature")
+    me, spec = [x.arg for x in ff[0].args.args]
+    env, ret = {}, None
+    for st in ff[0].body:
+        if isinstance(st, ast.Expr) and isinstance(st.value, ast.Constant):
+            continue
+        if isinstance(st, ast.Assign) and len(st.targets) == 1 and isinstance(st.targets[0], ast.Name) and ret is None:
+            env[st.targets[0].id] = st.value
+        elif isinstance(st, ast.Return) and ret is None and st.value is not None:
+            ret = st.value
+        else:
+            raise Unsupported("datetime.__format__ statement " + ast.unparse(st)[:60])
+
+    def inl(n, depth=0):
+        while isinstance(n, ast.Name) and n.id in env and depth < 10:
+            n, depth = env[n.id], depth + 1
+        return n
+    ret = inl(ret)
+    shape = (isinstance(ret, ast.Call) and len(ret.args) == 1 and not ret.keywords
+             and ast.unparse(inl(ret.args[0])) == me)
+    if shape:
+        inner = inl(ret.func)
+        shape = (isinstance(inner, ast.Call) and ast.unparse(inner.func) == "_compile_format" and len(inner.args) == 1
+                 and not inner.keywords and ast.unparse(inl(inner.args[0])) == spec)
+    return bool(ok and shape), maxsize
+
+
+def _formatter_shape(tree):
+    """`_loguru_datetime_formatter(is_utc, format_string, formatters, dt)`: (1) the conversion `dt.astimezone(timezone.utc)`
+    under `is_utc` precedes every read of the fields; (2) the result is `format_string % tuple(f(t, dt) for f in formatters)`
+    with `t = dt.timetuple()` of the (converted) dt.  Locals inlined; names free."""
+    fn = find_func(tree, "_loguru_datetime_formatter")
+    ps = [x.arg for x in fn.args.args]
+    if len(ps) != 4:
+        raise Unsupported("_loguru_datetime_formatter signature")
+    is_utc, fmt, fs, dt = ps
+    body = [st for st in fn.body if not (isinstance(st, ast.Expr) and isinstance(st.value, ast.Constant))]
+    conv_first = False
+    if body and isinstance(body[0], ast.If) and ast.unparse(body[0].test) == is_utc and not body[0].orelse \
+            and [ast.unparse(x) for x in body[0].body] == ["%s = %s.astimezone(timezone.utc)" % (dt, dt)]:
+        conv_first = True
+        body = body[1:]
+    elif body and isinstance(body[0], ast.Assign) and ast.unparse(body[0]) in (
+            "%s = %s.astimezone(timezone.utc) if %s else %s" % (dt, dt, is_utc, dt),):
+        conv_first = True
+        body = body[1:]
+    env, ret = {}, None
+    for st in body:
+        if isinstance(st, ast.Assign) and len(st.targets) == 1 and isinstance(st.targets[0], ast.Name) and ret is None:
+            if st.targets[0].id == dt:
+                raise Unsupported("dt reassigned after the conversion")
+            env[st.targets[0].id] = st.value
+        elif isinstance(st, ast.Return) and ret is None and st.value is not None:
+            ret = st.value
+        else:
+            raise Unsupported("_loguru_datetime_formatter statement " + ast.unparse(st)[:60])
+
+    class Inl(ast.NodeTransformer):
+        def visit_Name(self, n):
+            if isinstance(n.ctx, ast.Load) and n.id in env:
+                return self.visit(env[n.id])
+            return n
+    ret = Inl().visit(ret)
+    ok = False
+    if isinstance(ret, ast.BinOp) and isinstance(ret.op, ast.Mod) and ast.unparse(ret.left) == fmt:
+        r = ret.right
+        if isinstance(r, ast.Call) and ast.unparse(r.func) == "tuple" and len(r.args) == 1 \
+                and isinstance(r.args[0], (ast.GeneratorExp, ast.ListComp)) and len(r.args[0].generators) == 1:
+            g = r.args[0].generators[0]
+            if isinstance(g.target, ast.Name) and ast.unparse(g.iter) == fs and not g.ifs and not g.is_async:
+                elt = r.args[0].elt
+                ok = (isinstance(elt, ast.Call) and ast.unparse(elt.func) == g.target.id and not elt.keywords
+                      and [ast.unparse(x) for x in elt.args] == ["%s.timetuple()" % dt, dt])
+    return conv_first, ok
+
+
+def _generate_shape():
+    errors = []
+    body = "import LoguruModel.Datetime.Base\nset_option linter.unusedVariables false\nnamespace Datetime.Gen\n\n"
+    try:
+        tree, _ = parse_module("_datetime.py")
+        body += _tz_function(tree)
+        y, m, d, unit = _timestamp_shape(tree)
+        body += "/-- `_timestamp_microseconds`: `(dt - datetime(%d, %d, %d, tzinfo=utc)) // timedelta(microseconds=%d)` -/\n" % (y, m, d, unit)
+        body += "def epochDt : Dt := { year := %d, month := %d, day := %d, hour := 0, minute := 0, second := 0, " \
+                "microsecond := 0, offsetUs := 0, tzname := [] }\n" % (y, m, d)
+        body += "def timestampUnitUs : Int := %d\n" % unit
+        body += "def timestampGen (dt : Dt) : Int :=\n  ((localMicros dt - dt.offsetUs) - (localMicros epochDt - epochDt.offsetUs)) / timestampUnitUs\n\n"
+        whole, maxsize = _memoiser(tree)
+        body += "/-- the memoiser of `_compile_format` is keyed by the whole spec that `__format__` received -/\n"
+        body += "def cacheKeyIsWholeSpec : Bool := %s\n" % ("true" if whole else "false")
+        body += "def cacheMaxsize : Option Nat := %s\n\n" % ("none" if maxsize is None else "some %d" % maxsize)
+        writes, reach = _state_writes(tree)
+        body += "/-- constructs in the functions reachable from `datetime.__format__` through which a call could\n"
+        body += "leave state behind for the next one (besides the memoiser above) -/\n"
+        body += "def formatStateWrites : List String := [%s]\n\n" % ", ".join(lean_str(w) for w in writes)
+        conv_first, args_ok = _formatter_shape(tree)
+        body += "/-- `_loguru_datetime_formatter`: UTC conversion before the fields are read; `format_string % tuple(f(t, dt) …)` -/\n"
+        body += "def utcConversionFirst : Bool := %s\n" % ("true" if conv_first else "false")
+        body += "def argsInFormatterOrder : Bool := %s\n" % ("true" if args_ok else "false")
+    except (Unsupported, SyntaxError, KeyError, AttributeError, IndexError, TypeError, ValueError) as e:
+        errors.append("%s: %s" % (type(e).__name__, e))
+    body += "\nend Datetime.Gen\n"
+    return emit("DatetimeShape", body, ["loguru/_datetime.py"], errors)
+
+
+def generate():
+    a = _generate_tables()
+    b = _generate_shape()
+    return a and b
